@@ -81,6 +81,11 @@ var universe = []spec{
 	{name: "TX", k: kTomb, target: "X"},
 	{name: "L1", k: kLock, target: "R1", exp: 6},
 	{name: "L1s", k: kLock, target: "R1", exp: 3},
+	// a split object whose PARENT header carries an expiration (PE, exp 2)
+	{name: "CE1", k: kFirst, parent: "PE"},
+	{name: "CE2", k: kLast, parent: "PE", first: "CE1"},
+	{name: "KE", k: kLink, parent: "PE", first: "CE1"},
+	{name: "LPE", k: kLock, target: "PE", exp: 6},
 	{name: "L2", k: kLock, target: "C1"},
 	{name: "LC2", k: kLock, target: "C2"},
 	{name: "LP", k: kLock, target: "P"},
@@ -91,7 +96,10 @@ var universe = []spec{
 }
 
 // virtual / never stored addresses that are observed too
-var virtuals = []string{"P", "Q", "X"}
+var virtuals = []string{"P", "Q", "X", "PE"}
+
+// expiration attribute in the header of a virtual parent
+var parentExp = map[string]uint64{"PE": 2}
 
 type scenario struct {
 	name    string
@@ -117,6 +125,9 @@ var scenarios = []scenario{
 	{name: "split-v2-locked-first-child-tombstoned-parent", objs: []string{"C1", "C2", "K", "L2", "T2"}, epochs: []uint64{0}},
 	{name: "split-v2-locked-last-child-tombstoned-parent", objs: []string{"C1", "C2", "K", "LC2", "T2"}, epochs: []uint64{0}},
 	{name: "split-v2-locked-parent-tombstoned-parent", objs: []string{"C1", "C2", "K", "LP", "T2"}, epochs: []uint64{0}},
+	// split object expiring through its parent header, +- a live lock on the parent, resync after the expiration
+	{name: "split-v2-expiring-parent", objs: []string{"CE1", "CE2", "KE", "R2", "L3"}, epochs: []uint64{0, 3}},
+	{name: "split-v2-expiring-parent-locked", objs: []string{"CE1", "CE2", "KE", "LPE", "R2"}, epochs: []uint64{0, 3, 7}},
 	{name: "split-v2-dead-lock-on-parent-then-tombstone", objs: []string{"C1", "C2", "K", "LPs", "T2"}, bump: map[int]uint64{4: 4}, epochs: []uint64{4, 6}},
 }
 
@@ -201,7 +212,7 @@ func buildWorld(variant int) *world {
 		return h[:16]
 	}())
 	parentHdr := func(name string, c cid.ID) *object.Object {
-		p := baseObject(c, idOf(name), name, object.TypeRegular, 0)
+		p := baseObject(c, idOf(name), name, object.TypeRegular, parentExp[name])
 		p.SetPayload(nil)
 		p.SetPayloadSize(64)
 		return p
@@ -418,7 +429,7 @@ type tcase struct {
 	Arrival  []int // arrival order (indices into the scenario's object list)
 	Epoch    uint64
 	Perm     []int // blob enumeration order (indices into the stored blob list, which is in scenario order)
-	Split    int   // cross-batch scenario only: how many of the permuted blobs precede the 1000 filler blobs
+	After    []int // batch-boundary family only: the blobs of Perm that are read AFTER the resyncBatchSize filler blobs
 }
 
 func scenarioByName(n string) *scenario {
@@ -501,9 +512,20 @@ func describe(w *world, sc *scenario, stored []int, name string, epoch uint64) s
 	} else if d {
 		fl = append(fl, "expired-tombstone")
 	}
+	if pe := parentExp[name]; pe != 0 && epoch > pe {
+		fl = append(fl, "expired")
+	}
 	if u.parent != "" {
 		if l, d := assoc(u.parent, kTomb); l || d {
 			fl = append(fl, "parent-tombstoned")
+		}
+		if pe := parentExp[u.parent]; pe != 0 && epoch > pe {
+			fl = append(fl, "parent-expired")
+		}
+		if l, d := assoc(u.parent, kLock); l {
+			fl = append(fl, "parent-live-lock")
+		} else if d {
+			fl = append(fl, "parent-expired-lock")
 		}
 	}
 	if isVirtual {
@@ -578,8 +600,22 @@ func (c *checker) violation(fp, what string, tc tcase) {
 //     counted in the evidence, the property text does not demand their reclamation.
 func dontCare(w *world, sc *scenario, stored []int, epoch uint64) map[string]string {
 	m := map[string]string{}
+	liveLock := func(target string) bool {
+		for _, oj := range stored {
+			l := w.byName[sc.objs[oj]]
+			if l.k == kLock && l.target == target && (l.exp == 0 || epoch <= l.exp) {
+				return true
+			}
+		}
+		return false
+	}
 	for _, oi := range stored {
 		u := w.byName[sc.objs[oi]]
+		if pe := parentExp[u.parent]; u.parent != "" && pe != 0 && epoch > pe && !liveLock(u.parent) && !liveLock(u.name) {
+			// part of an unlocked object that expired through its parent header: "expired" and "not in
+			// the metabase" are the same client-visible status
+			m[u.name] = "EM"
+		}
 		if u.exp == 0 || epoch <= u.exp {
 			continue
 		}
@@ -648,6 +684,10 @@ func (c *checker) judge(w *world, sc *scenario, tc tcase, stored []int, vec, ref
 		}
 		return o
 	}())
+	if strings.HasPrefix(tc.Scenario, boundaryPrefix) {
+		nb := len(tc.Perm) - len(tc.After)
+		order = fmt.Sprintf("%s | %d filler blobs (= resync batch size) | %s", names(tc.Perm[:nb]), len(fillers()), names(tc.After))
+	}
 	if refPerm != nil {
 		for _, i := range diffNames(w, vec, refPerm, dontCare(w, sc, stored, tc.Epoch)) {
 			n := w.names[i]
@@ -678,7 +718,7 @@ func (c *checker) judge(w *world, sc *scenario, tc tcase, stored []int, vec, ref
 	}
 	for _, oi := range stored {
 		u := w.byName[sc.objs[oi]]
-		if u.exp != 0 && tc.Epoch > u.exp && vec[idx[u.name]] == "M" {
+		if vec[idx[u.name]] == "M" && ((u.exp != 0 && tc.Epoch > u.exp) || (parentExp[u.parent] != 0 && tc.Epoch > parentExp[u.parent])) {
 			stat.expiredLeftOut.Add(1)
 		}
 		removed := strings.HasPrefix(vec[idx[u.name]], "R")
@@ -828,43 +868,76 @@ func (c *checker) runScenario(sc *scenario, variant int, arrivals [][]int) (comp
 }
 
 // ---------------------------------------------------------------------------------------------
-// cross-batch scenario: 1000 filler blobs (= resyncBatchSize) + 4 related blobs, so that the related
-// blobs are spread over two PutBatch transactions in every possible way.
+// batch-boundary family: the resync driver puts objects in batches of resyncBatchSize (read from the
+// implementation through an injected constant). B cheap filler blobs (built once) + n interesting blobs;
+// for EVERY assignment of the interesting blobs to the two sides of the filler block (2^n masks; inside a
+// side: natural order, thorough also reversed and - for the 4-blob set - every permutation) the first
+// batch boundary of the driver falls between the two sides. Oracles as for the permutation family:
+// equal to the all-before order, equal to incremental construction, removed objects reclaimable.
 
-var crossSc = scenario{name: "cross-batch", objs: []string{"C2", "R5", "T5", "T2"}, epochs: []uint64{0}}
+const boundaryPrefix = "batch-boundary/"
 
-func fillers(w *world) []*uobj {
-	var fs []*uobj
-	for i := 0; i < 1000; i++ {
-		n := fmt.Sprintf("F%d", i)
-		u := &uobj{spec: spec{name: n, k: kReg}, id: mkID(n, kReg, 0), cnr: cnrs[0]}
-		u.id[0] = 0x85 + byte(i%8)
-		u.obj = baseObject(u.cnr, u.id, n, object.TypeRegular, 0)
-		u.addr = oid.NewAddress(u.cnr, u.id)
-		u.bin = u.obj.Marshal()
-		fs = append(fs, u)
-	}
-	return fs
+type bset struct {
+	scenario
+	allPerms bool // thorough: every order of the interesting blobs x every split point as well
 }
 
-func (c *checker) crossOne(in *inst, w *world, fs []*uobj, perm []int, split int) (vec []string, listed, deleted map[oid.Address]bool, drained bool) {
+var boundarySets = []bset{
+	// quick: every side assignment (2^n) of small sets
+	{scenario: scenario{name: boundaryPrefix + "split-parts-link-tombstone", objs: []string{"C1", "C2", "K", "T2"}, epochs: []uint64{0}}},
+	{scenario: scenario{name: boundaryPrefix + "regular-tombstone", objs: []string{"R5", "T5"}, epochs: []uint64{0}}},
+	{scenario: scenario{name: boundaryPrefix + "expired-object-live-lock", objs: []string{"R1", "L1"}, epochs: []uint64{3}}},
+	{scenario: scenario{name: boundaryPrefix + "expiring-split-parent-locked", objs: []string{"CE1", "CE2", "KE", "LPE"}, epochs: []uint64{3}}},
+	// arrival: tombstone of the parent first, lock on the (garbage-marked) first child after it
+	{scenario: scenario{name: boundaryPrefix + "locked-child-tombstoned-parent", objs: []string{"C1", "C2", "T2", "L2"}, epochs: []uint64{0}}},
+	// thorough: larger sets, reversed inner orders, all orders of a 4-blob set
+	{scenario: scenario{name: boundaryPrefix + "split-parts-link-tombstones-6", objs: []string{"C1", "C2", "K", "R5", "T5", "T2"}, epochs: []uint64{0}, tier: 1}},
+	{scenario: scenario{name: boundaryPrefix + "expired-objects-and-locks", objs: []string{"R1", "R4", "L1", "L4"}, epochs: []uint64{3, 4}, tier: 1}},
+	{scenario: scenario{name: boundaryPrefix + "expiring-split-parent", objs: []string{"CE1", "CE2", "KE"}, epochs: []uint64{3}, tier: 1}},
+	{scenario: scenario{name: boundaryPrefix + "locked-child-link-tombstoned-parent", objs: []string{"C1", "C2", "K", "T2", "L2"}, epochs: []uint64{0}, tier: 1}},
+	{scenario: scenario{name: boundaryPrefix + "four-blobs-all-orders", objs: []string{"C2", "R5", "T5", "T2"}, epochs: []uint64{0}, tier: 1}, allPerms: true},
+}
+
+var (
+	fillerOnce sync.Once
+	fillerObjs []*uobj
+)
+
+func fillers() []*uobj {
+	fillerOnce.Do(func() {
+		for i := 0; i < meta.VerifC18ResyncBatchSize; i++ {
+			n := fmt.Sprintf("F%d", i)
+			u := &uobj{spec: spec{name: n, k: kReg}, id: mkID(n, kReg, 0), cnr: cnrs[0]}
+			u.id[0] = 0x85 + byte(i%8)
+			o := object.New(u.cnr, owner)
+			o.SetID(u.id)
+			o.SetType(object.TypeRegular)
+			o.SetPayloadChecksum(checksum.NewSHA256(sha256.Sum256(nil)))
+			u.obj = o
+			u.addr = oid.NewAddress(u.cnr, u.id)
+			u.bin = o.Marshal()
+			fillerObjs = append(fillerObjs, u)
+		}
+	})
+	return fillerObjs
+}
+
+// order: indices into bs.objs read before the filler block, then the fillers, then the rest
+func (c *checker) boundaryOne(in *inst, w *world, bs *bset, epoch uint64, before, after []int) (vec []string, listed, deleted map[oid.Address]bool, drained bool) {
+	fs := fillers()
 	st := &permStorage{}
-	for _, n := range crossSc.objs {
+	for _, n := range bs.objs {
 		st.objs = append(st.objs, w.byName[n])
 	}
 	st.objs = append(st.objs, fs...)
-	for _, p := range perm[:split] {
-		st.order = append(st.order, p)
-	}
+	st.order = append(st.order, before...)
 	for i := range fs {
-		st.order = append(st.order, len(crossSc.objs)+i)
+		st.order = append(st.order, len(bs.objs)+i)
 	}
-	for _, p := range perm[split:] {
-		st.order = append(st.order, p)
-	}
-	in.ep.v.Store(0)
+	st.order = append(st.order, after...)
+	in.ep.v.Store(epoch)
 	if err := in.db.ResyncFromBlobstor(st, func(a oid.Address, err error) error { return err }); err != nil {
-		c.violation("rebuild-fails", fmt.Sprintf("cross-batch scenario perm %v split %d: %v", perm, split, err), tcase{Scenario: crossSc.name, Perm: perm, Split: split})
+		c.violation("rebuild-fails", fmt.Sprintf("%s before=%v after=%v: %v", bs.name, before, after, err), tcase{Scenario: bs.name, Epoch: epoch, Perm: before, After: after})
 		if rerr := in.db.Reset(); rerr != nil {
 			c.r.Fatal("reset: %v", rerr)
 		}
@@ -878,49 +951,105 @@ func (c *checker) crossOne(in *inst, w *world, fs []*uobj, perm []int, split int
 	return
 }
 
-func (c *checker) crossIncremental(in *inst, w *world, fs []*uobj) []string {
+// incremental construction: fillers, then the interesting objects in the set's order (every put must be accepted)
+func (c *checker) boundaryIncremental(in *inst, w *world, bs *bset) map[uint64][]string {
 	if err := in.db.Reset(); err != nil {
 		c.r.Fatal("%v", err)
 	}
 	in.ep.v.Store(0)
 	var batch []*object.Object
-	for _, f := range fs {
+	for _, f := range fillers() {
 		batch = append(batch, f.obj)
 	}
 	if err := in.db.PutBatch(batch); err != nil {
 		c.r.Fatal("fillers: %v", err)
 	}
-	for _, n := range crossSc.objs {
+	for _, n := range bs.objs {
 		if err := in.db.Put(w.byName[n].obj); err != nil {
-			c.r.Fatal("cross-batch incremental put %s: %v", n, err)
+			c.r.Fatal("%s: incremental put %s: %v", bs.name, n, err)
 		}
 	}
-	return in.vector(w)
+	res := map[uint64][]string{}
+	for _, e := range bs.epochs {
+		in.ep.v.Store(e)
+		res[e] = in.vector(w)
+	}
+	return res
 }
 
-func (c *checker) runCrossBatch(only *tcase) bool {
+func boundaryByName(n string) *bset {
+	for i := range boundarySets {
+		if boundarySets[i].name == n {
+			return &boundarySets[i]
+		}
+	}
+	return nil
+}
+
+func (c *checker) runBoundary(bs *bset, only *tcase) bool {
 	w := c.worlds[0]
-	fs := fillers(w)
+	n := len(bs.objs)
 	in := c.get()
-	inc := c.crossIncremental(in, w, fs)
-	stored := []int{0, 1, 2, 3}
-	id := []int{0, 1, 2, 3}
-	ref, _, _, _ := c.crossOne(in, w, fs, id, 4)
+	inc := c.boundaryIncremental(in, w, bs)
+	stored := make([]int, n)
+	all := make([]int, n)
+	for i := range stored {
+		stored[i], all[i] = i, i
+	}
+	refs := map[uint64][]string{}
+	for _, e := range bs.epochs {
+		refs[e], _, _, _ = c.boundaryOne(in, w, bs, e, all, nil)
+	}
 	c.put(in)
 	type job struct {
-		perm  []int
-		split int
+		epoch         uint64
+		before, after []int
 	}
 	var jobs []job
+	seen := map[string]bool{}
+	add := func(e uint64, before, after []int) {
+		k := fmt.Sprint(e, before, after)
+		if !seen[k] {
+			seen[k] = true
+			jobs = append(jobs, job{e, append([]int(nil), before...), append([]int(nil), after...)})
+		}
+	}
+	rev := func(x []int) []int {
+		r := make([]int, len(x))
+		for i := range x {
+			r[i] = x[len(x)-1-i]
+		}
+		return r
+	}
 	if only != nil {
-		jobs = []job{{only.Perm, only.Split}}
+		add(only.Epoch, only.Perm, only.After)
 	} else {
-		enumx.Perms(4, func(p []int) bool {
-			for k := 0; k <= 4; k++ {
-				jobs = append(jobs, job{append([]int(nil), p...), k})
+		for _, e := range bs.epochs {
+			for m := 0; m < 1<<uint(n); m++ {
+				var before, after []int
+				for i := 0; i < n; i++ {
+					if m&(1<<uint(i)) != 0 {
+						after = append(after, i)
+					} else {
+						before = append(before, i)
+					}
+				}
+				add(e, before, after)
+				if c.r.Thorough() {
+					add(e, rev(before), rev(after))
+					add(e, rev(before), after)
+					add(e, before, rev(after))
+				}
 			}
-			return true
-		})
+			if bs.allPerms {
+				enumx.Perms(n, func(p []int) bool {
+					for k := 0; k <= n; k++ {
+						add(e, p[:k], p[k:])
+					}
+					return true
+				})
+			}
+		}
 	}
 	var aborted atomic.Bool
 	enumx.Parallel(len(jobs), func(i int) {
@@ -931,12 +1060,17 @@ func (c *checker) runCrossBatch(only *tcase) bool {
 		in := c.get()
 		defer c.put(in)
 		j := jobs[i]
-		vec, listed, deleted, drained := c.crossOne(in, w, fs, j.perm, j.split)
+		vec, listed, deleted, drained := c.boundaryOne(in, w, bs, j.epoch, j.before, j.after)
 		c.r.Eval(1)
-		tc := tcase{Scenario: crossSc.name, Arrival: id, Perm: j.perm, Split: j.split}
-		c.judge(w, &crossSc, tc, stored, vec, ref, inc, listed, deleted, drained)
-		c.classes.Store(strings.Join(vec, " "), true)
-		c.r.Nontrivial(fmt.Sprintf("cross/%v/%d", j.perm, j.split))
+		// Perm = complete order of the interesting blobs (judge prints it), After = the part read after the fillers
+		tc := tcase{Scenario: bs.name, Arrival: all, Epoch: j.epoch, Perm: append(append([]int(nil), j.before...), j.after...), After: j.after}
+		c.judge(w, &bs.scenario, tc, stored, vec, refs[j.epoch], inc[j.epoch], listed, deleted, drained)
+		k := strings.Join(vec, " ")
+		c.classes.Store(k, true)
+		c.r.Nontrivial(fmt.Sprintf("%s/%d/%s", bs.name, j.epoch, k))
+		if len(j.before) > 0 && len(j.after) > 1 && i%37 == 5 && c.r.WantSample() {
+			c.r.Sample(map[string]any{"case": tc, "filler_blobs_between": len(fillers())})
+		}
 	})
 	return !aborted.Load()
 }
@@ -1008,8 +1142,13 @@ func main() {
 	if r.Replay != "" {
 		var tc tcase
 		r.LoadReplay(&tc)
-		if tc.Scenario == crossSc.name {
-			c.runCrossBatch(&tc)
+		if strings.HasPrefix(tc.Scenario, boundaryPrefix) {
+			bs := boundaryByName(tc.Scenario)
+			if bs == nil {
+				r.Fatal("unknown boundary set %q", tc.Scenario)
+			}
+			tc.Perm = tc.Perm[:len(tc.Perm)-len(tc.After)]
+			c.runBoundary(bs, &tc)
 		} else {
 			replay(c, tc)
 		}
@@ -1062,12 +1201,19 @@ func main() {
 			}
 		}
 	}
-	if r.Thorough() && exhaustive {
-		nsc++
-		if !c.runCrossBatch(nil) {
+	nb := 0
+	for i := range boundarySets {
+		bs := &boundarySets[i]
+		if (bs.tier == 1 && r.Quick()) || !exhaustive {
+			continue
+		}
+		nb++
+		if !c.runBoundary(bs, nil) {
 			exhaustive = false
 		}
 	}
+	r.Set("batch_boundary_sets", nb)
+	r.Set("resync_batch_size", meta.VerifC18ResyncBatchSize)
 	ncls := 0
 	c.classes.Range(func(_, _ any) bool { ncls++; return true })
 	r.Set("outcome_classes", ncls)
@@ -1075,9 +1221,9 @@ func main() {
 	r.Set("id_order_variants", len(variants))
 	r.Set("info_rebuilds_leaving_an_expired_object_out_of_the_metabase", stat.expiredLeftOut.Load())
 	r.Set("stored_sets_whose_incremental_status_depends_on_arrival_order", stat.incArrivalDependent.Load())
-	r.Rule("scenario (5-7 objects: regular +- expiration, v2/v1 split children with parent header, LINK, tombstones, locks +- expiration; incl. one set per {lock on first child, lock on last child, lock on parent, expired lock on parent} x {tombstone on the parent}) x ID-order variant (association object IDs before/after their targets) x arrival order (quick: natural, tombstones-before-locks, reversed; thorough: all permutations; a blob exists iff the real metabase accepted the put) x resync epoch x EVERY permutation of the blob enumeration order; evaluation = one ResyncFromBlobstor + status vector (Exists/Get/IsLocked for every universe address incl. virtual parents and an absent target) + GetGarbage/Delete loop; non-trivial = distinct (scenario, stored set, epoch, vector) with at least one removed/expired/locked status")
+	r.Rule("(1) permutation family: scenario (5-7 objects: regular +- expiration, v2/v1 split children with parent header, LINK, split object expiring through its parent header +- lock on the parent, tombstones, locks +- expiration; incl. one set per {lock on first child, lock on last child, lock on parent, expired lock on parent} x {tombstone on the parent}) x ID-order variant (association object IDs before/after their targets) x arrival order (quick: natural, tombstones-before-locks, reversed; thorough: all permutations; a blob exists iff the real metabase accepted the put) x resync epoch x EVERY permutation of the blob enumeration order; (2) batch-boundary family: resyncBatchSize (read from the implementation) filler blobs + 2-6 interesting blobs, EVERY assignment of the interesting blobs to the two sides of the filler block, i.e. of the driver's first batch boundary (quick: 5 sets, 56 assignments; thorough: 10 sets, also reversed inner orders and every order x split point of a 4-blob set); evaluation = one ResyncFromBlobstor + status vector (Exists/Get/IsLocked for every universe address incl. virtual parents and an absent target) + GetGarbage/Delete loop, compared with the reference order, with incremental construction, and for reclaimability; non-trivial = distinct (scenario, stored set, epoch, vector) with at least one removed/expired/locked status")
 	r.Exhaustive(exhaustive)
-	r.Assume("a single resync batch (resyncBatchSize=1000 > 7 blobs); container removal is not recorded in blobs and therefore not part of the rebuilt state",
+	r.Assume("batch-boundary orders put exactly one driver batch boundary between the two groups of interesting blobs (stores of more than 2 batches are not built); container removal is not recorded in blobs and therefore not part of the rebuilt state",
 		"status = class of Exists/Get error + IsLocked; counters and search results after resync are not compared (property speaks of statuses)")
 	finish()
 }
